@@ -63,7 +63,7 @@ def gen_history(rng, cfg, flavour):
 def gen_cases(ctx):
     rng = ctx.rng
     cases = []
-    n_random = 1500 if ctx.thorough else 170
+    n_random = 2500 if ctx.thorough else 420
     cfgs = [{"conn": c, "virt": v, "tmo": t} for c in (True, False) for v in (False, True) for t in (1, 2, 3)]
     for i in range(n_random):
         cfg = dict(rng.choice(cfgs))
